@@ -212,6 +212,25 @@ class Gate(VC):
         self.T, self.receiver = T, receiver
         super().__init__("C19", f"C19.gate.{T.__name__}" + ("" if receiver == "instance" else f"[{receiver} receiver]"))
         self.posts = [(f"blocks[{m}]", self.mk_post(m)) for m in MUT[T]]
+        if receiver != "instance":
+            self.posts = [("blocks_every_mutator", Gate.p_all)]
+
+    def p_all(self, pre, out):
+        if out.raised:
+            return False
+        # MUT(T) is finite: "True only for names outside MUT(T)" is decided by one ground query per mutator name (string goals
+        # with a free name are slow when the machine is loaded)
+        from pyvc.smt import check_sat
+        ret = _sbx.ret_term(out.value)
+        undecided = False
+        for m in MUT[self.T]:
+            r = check_sat(list(out.st.pc) + [ret, self.attr.t == z3.StringVal(m)], 8000, 0, use_cvc5=False)
+            if r.status == "sat":
+                return z3.Implies(ret, self.attr.t != z3.StringVal(m))
+            undecided = undecided or r.status != "unsat"
+        if not undecided:
+            return True
+        return z3.Implies(ret, z3.And(*[self.attr.t != z3.StringVal(m) for m in MUT[self.T]]))
 
     def configure(self, I):
         I.inline.update({"jinja2.sandbox:modifies_known_mutable", "jinja2.sandbox:is_internal_attribute",
@@ -241,7 +260,7 @@ class Gate(VC):
     def finding_key(self, res):
         w = res.witness or {}
         rc = w.get("receiver", "instance")
-        return f"{w.get('type')}.{w.get('attr')}" + ("" if rc == "instance" else f"[{rc}]")
+        return f"{w.get('type')}.{w.get('attr')}" if rc == "instance" else f"{w.get('type')}[{rc}]"
 
     def replay(self, w):
         return replay_gate(w)
@@ -407,16 +426,18 @@ def native_gate_routes(task, tier, seed):
             for kw in ({}, {"enable_async": True}):
                 n += 1
                 mod, detail = native_modifies(T.__name__, name, None, kw)
+                via = None
                 for rcv in ("class", "alias"):
                     if not mod:
                         mod, detail = native_modifies_via_class(T.__name__, name, rcv, kw)
+                        via = rcv if mod else None
                 if mod:
-                    bad.append((name, detail))
+                    bad.append((name, detail, via))
                     break
         nm = f"C19.gate.native.{T.__name__}"
         if bad:
-            for name, detail in bad:
-                out.append(Res(nm, "refuted", "bounded", 0, detail, "bounded", {"type": T.__name__, "attr": name}))
+            for name, detail, via in bad:
+                out.append(Res(nm, "refuted", "bounded", 0, detail, "bounded", {"type": T.__name__, "attr": name, "receiver": via or "instance"}))
         else:
             out.append(Res(nm, "bounded-ok", "bounded", 0, f"{len(public_names(T))} public names x ({len(ROUTES)} instance routes + {len(CLASS_ROUTES)} routes through the class / a parameterized alias) x {len(SAMPLES[T])} samples x {len(ARGS)} argument tuples x sync/async", "bounded"))
     task.bound_text = (f"every public method name of list/dict/set/deque x routes {list(ROUTES)} x sample receivers x {len(ARGS)} argument tuples, "
@@ -436,7 +457,8 @@ class NativeGate(FnTask):
 
     def finding_key(self, res):
         w = res.witness or {}
-        return f"{w.get('type')}.{w.get('attr')}"
+        rc = w.get("receiver", "instance")
+        return f"{w.get('type')}.{w.get('attr')}" if rc == "instance" else f"{w.get('type')}[{rc}]"
 
 
 # =====================================================================================================================
